@@ -18,6 +18,8 @@ import (
 //
 // A value read from the input (a decoded header field, the gzip ISIZE trailer) is none of these
 // unless it is compared first.
+var allocViaAdd, allocViaMul int
+
 func allocBounded(pr *Prog, at *ssa.BasicBlock, v ssa.Value, depth int, seen map[ssa.Value]bool) bool {
 	if v == nil {
 		return false
@@ -26,10 +28,14 @@ func allocBounded(pr *Prog, at *ssa.BasicBlock, v ssa.Value, depth int, seen map
 		return true
 	}
 	if seen[v] {
-		// a loop-carried count: bounded when the loop runs only while the count is below a bounded value
+		// a loop-carried count: a running sum of bounded increments (bytes read into a bounded buffer), or
+		// a count the loop lets grow only while it is below a bounded value; never a product (doubling)
 		ph, isPhi := v.(*ssa.Phi)
 		if !isPhi || ph.Referrers() == nil {
 			return false
+		}
+		if allocViaMul == 0 && allocViaAdd > 0 {
+			return true
 		}
 		for _, ref := range *ph.Referrers() {
 			bo, ok := ref.(*ssa.BinOp)
@@ -85,7 +91,13 @@ func allocBounded(pr *Prog, at *ssa.BasicBlock, v ssa.Value, depth int, seen map
 		return allocBounded(pr, at, x.X, depth, seen)
 	case *ssa.BinOp:
 		switch x.Op {
-		case token.ADD, token.MUL, token.SHL:
+		case token.ADD:
+			allocViaAdd++
+			defer func() { allocViaAdd-- }()
+			return allocBounded(pr, at, x.X, depth, seen) && allocBounded(pr, at, x.Y, depth, seen)
+		case token.MUL, token.SHL:
+			allocViaMul++
+			defer func() { allocViaMul-- }()
 			return allocBounded(pr, at, x.X, depth, seen) && allocBounded(pr, at, x.Y, depth, seen)
 		case token.SUB, token.QUO, token.SHR:
 			return allocBounded(pr, at, x.X, depth, seen)
